@@ -301,14 +301,21 @@ CLAIMED["C01"] = (
     "domain the check accepts (136 bool/int tie, 143 -0.0, 145 tuple.copy(), 123 int(True)); decision tables inside the checks "
     "(FUNC_TABLE, is_truthy, IS_INT_COMPARISON_TRUTHY, FUNC_NAME_MAPPING) are regenerated and kernel-checked against the rules. Ties: the "
     "model evaluator is compared with CPython's eval on ~1.1k sweeps per run and refurb is checked to really propose each rule's `new`. "
-    "NOT proved: the other checks (standard library / OS / user classes / statement-level) — covered only by the execution oracle: 175 "
-    "idiom functions for 60 checks are linted, each suggested rewrite is spliced in at the reported span and both versions executed "
-    "over typed value sweeps (value+type, raised-or-not, argument state, stdout).",
+    "Statement level: a block language (assignments, append, if/else, for, return/continue, list comprehensions) with big-step "
+    "semantics; FURB113/125/126/128/133/138/148 proved on it, the control-flow and loop rules for ARBITRARY blocks and lists of any "
+    "length (sound_125_any_block, sound_126_any_branch, sound_133_any_body, sound_138_any via a loop invariant, sound_148_any), five "
+    "unsound variants refuted by witness (the append reads the list, the temporary/loop name is observed later). "
+    "NOT proved: the other checks (standard library / OS / user classes) — covered by the execution oracle: ~175 expression idioms "
+    "+ ~170 statement/file-system cases (87 of 93 checks have an executed rewrite) are linted, each suggested rewrite is spliced in at "
+    "the reported span (or, for schematic messages, a hand-written rewrite tied to refurb's exact message) and both versions executed "
+    "over typed value sweeps (value+type, raised-or-not, argument state, stdout, resulting file tree); ~500 single-edit near-miss "
+    "neighbours of the idioms are linted too, so a check that starts to fire next to its pattern is judged as well.",
     COMMON_NOTE
     + "Modelled, not verified: no aliasing/object identity (so `in` is equality-based: theorems carry a NaN-free guard, the NaN identity "
     "difference is a recorded finding), floats are a three-kind abstraction, no user-defined classes, str()/int() of other classes not "
-    "modelled. Nine recorded behaviour findings (NaN identity, ties, -0.0, tuple.copy, log rounding, in-place rewrites vs aliases, "
-    "bool/int, FURB121 tuple operand). Documented caveats (116 negative numbers, 179 iterator) are excluded as the property says, with "
+    "modelled; lists are values in the block language (no aliasing, no dicts). Recorded behaviour findings: see known_findings.json "
+    "(NaN identity, ties, -0.0, tuple.copy, log rounding, in-place rewrites vs aliases, bool/int, FURB121 tuple operand, pathlib "
+    "result types and empty/bytes paths, names read after a loop, ...). The hand-written rewrites of schematic messages are trusted. Documented caveats (116 negative numbers, 179 iterator) are excluded as the property says, with "
     "the docstring sentence checked on every run.",
     "Lean 4 proof (per-rule semantic equivalence over a Python value model; witness refutations; decide over regenerated tables) + evaluator/CPython and rule/refurb correspondence + rewrite-and-execute oracle",
     "DESIGN.md §4 C01",
